@@ -1,6 +1,7 @@
 (** C16 - Duplicate-packets mode.  Pinned statements only. *)
+From Tftp Require Import Base.Decimal Model.Config Proofs.ConfigP.
 From Tftp Require Import Base.Prelude Model.Types Model.Consts Model.Codec Model.Window Model.Worker Model.Spec
-  Model.Config Proofs.CodecP Proofs.SpecP Proofs.WindowP Proofs.SendP Proofs.RecvP Proofs.ConfigP.
+  Proofs.CodecP Proofs.SpecP Proofs.WindowP Proofs.SendP Proofs.RecvP.
 Local Open Scope N_scope.
 
 (** [send_packet]: [rep = N + 1] copies back to back; only the result of the first copy
